@@ -31,6 +31,7 @@ def run_one(sid):
         for prop in [meta['property']] + ALSO.get(meta['property'], []):
             env = dict(os.environ)
             env['VERIF_SEED'] = env.get('VERIF_SEED', '0')
+            env['VERIF_NO_EVIDENCE'] = '1'
             p = sh([os.path.join(core.VERIF, 'check'), prop, 'quick'], cwd=core.VERIF, env=env, timeout=3600)
             lines = [l for l in p.stdout.split('\n') if l.startswith('VIOLATION')]
             results[prop] = {'exit': p.returncode, 'violations': len(lines),
